@@ -342,6 +342,9 @@ class Verdict:
             doc = {"property": self.pid, "scenario": scenario, "config": config, "seed": rep.get("seed", str(self.seed)),
                    "index": v.get("index"), "history": v.get("history"), "violation": {"class": v["class"], "detail": v["detail"]},
                    "original_history": v.get("original_history"), "shrink_steps": v.get("shrink_steps")}
+            base_cfg = config.split("+")[0]
+            if base_cfg.startswith(("dbg_rand_", "m_rand_")) and base_cfg in CONFIGS:
+                doc["config_def"] = CONFIGS[base_cfg]   # a per-run random build: the replay file carries its definition
             for extra_key in ("engine", "argv", "miri_seed", "schedule", "rustflags", "env", "range_argv"):
                 if extra_key in v:
                     doc[extra_key] = v[extra_key]
@@ -995,11 +998,25 @@ def check_C17(ctx, tier, seed):
     # selected SSE2 / SSE4.1 tiers, low-memory buckets under the SIMD aggregation (fewer runs each)
     twins = ["dbg_embedded", "dbg_lowmem_simd", "dbg_bare", "dbg_sse41", "dbg_sse2", "rel_unsafe_lowmem"]
     tbins = build_many(ctx, twins)
+    # ... plus seeded random feature subsets under the debug profile, rebuilt for every run (swarm over build knobs)
+    import random
+    rnd = random.Random(seed * 31 + 17)
+    rand_twins = []
+    for i in range(2 if quick else 6):
+        feats = sorted(set(PLAIN + [f for f in OPT_ONLY_FEATURES if rnd.random() < 0.45]))
+        k = "dbg_rand_%d" % i
+        CONFIGS[k] = dict(tlsh=feats, sim=[], rustflags=rnd.choice(["", "", "-C target-feature=+sse4.1,+ssse3", "-C target-feature=+avx2"]),
+                          profile={"opt-level": rnd.choice([1, 2, 2]), "debug-assertions": "true", "overflow-checks": "true"})
+        rand_twins.append(k)
+    tbins.update(build_many(ctx, rand_twins))
+    vd.extra["random_debug_builds"] = {k: {"features": CONFIGS[k]["tlsh"], "rustflags": CONFIGS[k]["rustflags"], "profile": CONFIGS[k]["profile"]} for k in rand_twins}
     def twin(cfg):
         for sc, n in (("c17api", 16_000), ("c03", 8_000), ("c12", 4_000)):
             sim_batch_procs(ctx, vd, cfg, tbins[cfg], sc, n * mult, abort_engine="native-abort", procs=4)
     with ThreadPoolExecutor(max_workers=4) as ex:
-        list(ex.map(twin, twins))
+        list(ex.map(twin, twins + rand_twins))
+    for k in rand_twins:
+        shutil.rmtree(os.path.join(ctx.build_root, k), ignore_errors=True)
     # the file helpers on real files, incl. calls from threads with a 192 KiB stack (stack exhaustion is a crash, too)
     fscratch = os.path.join(ctx.build_root, "dbg", "files")
     for cfg in ("dbg", "rel_unsafe"):
@@ -1190,6 +1207,8 @@ def replay(ctx, pid, path):
     cfg = cfg.split("+")[0]
     engine = doc.get("engine")
     prop = doc.get("property", pid)
+    if doc.get("config_def") and cfg not in CONFIGS:
+        CONFIGS[cfg] = doc["config_def"]
     def report(reproduced, detail):
         if reproduced:
             print("VIOLATION property=%s replay=%s" % (prop, path))
